@@ -206,12 +206,31 @@ func c05PoolTypestate(c *Ctx, r *Report, rulePrefix string) {
 				r.Check(!leaks, rule2, where, exprStr(as.Lhs[0])+" := "+exprStr(call), c.Pos(as.Pos()),
 					"pairing: Return is deferred or executed on every path to the exit",
 					"a path from Get to the function's exit does not return the object to the pool")
+				// exactly once: no path carries two Returns of the same object (a deferred Return counts where it is registered)
+				var retNodes []int
+				for _, nd := range fg.Nodes {
+					if retBarrier(nd) {
+						retNodes = append(retNodes, nd.ID)
+					}
+				}
+				double := ""
+				for _, a := range retNodes {
+					for _, b := range retNodes {
+						if a != b && fg.Reaches(a, b, func(nd *FNode) bool { return nd.ID == getNode }) {
+							double = c.Pos(fg.Nodes[b].N.Pos())
+						}
+					}
+				}
+				r.Check(double == "", rule2+"-once", where, exprStr(as.Lhs[0])+" := "+exprStr(call), c.Pos(as.Pos()),
+					"pairing: no path returns the pooled object twice",
+					"the pooled object is returned to the pool twice on one path (second Return at "+double+"; a deferred Return still runs at exit): the pool then hands the same object to two users at once - nested or concurrent evaluations overwrite each other's {0}/{1} and a context can become its own parent (unbounded recursion)")
 				return true
 			})
 		}
 	}
 	r.Floor(rule, 6, "5 sub-context sites in funcsRange, kfMath and the funcs-file stage")
 	r.Floor(rule2, 6, "same sites")
+	r.Floor(rule2+"-once", 6, "same sites")
 }
 
 // c05StagePurity: stage closures (func(KeyBuilderContext) string) write no
